@@ -150,6 +150,7 @@ func (e *pfEngine) run(entries []*ssa.Function, exported bool) ([]*pfSite, []*ss
 		}
 	}
 	e.computeFlagFacts(fns)
+	e.computeParamNil(fns)
 	// which option-taking functions are only ever called with literal option lists
 	literalOnly := map[*ssa.Function]bool{}
 	for _, f := range fns {
